@@ -1263,6 +1263,13 @@ class Interp:
         if o.get('deref_enum') and 'deref_bytes' in o:
             val = int.from_bytes(bytes.fromhex(o['deref_bytes']), 'little')
             return Ref(LV(Cell(Sym(nf.sym_atom('const:%s=%d' % (o['deref_ty'], val)), o['deref_ty']), o['deref_ty'], 'promoted')))
+        if 'deref_bytes' in o and str(o.get('deref_ty', '')).startswith('['):
+            # reference to a promoted constant array (`&[1, 2]`): a reference to the decoded table
+            v = _decode_array(o['deref_ty'], bytes.fromhex(o['deref_bytes']))
+            if v is not None:
+                return Ref(LV(Cell(v, o['deref_ty'], 'promoted')))
+        if ty.startswith('&[') and ty.endswith('; 0]') and o.get('promoted'):
+            return Ref(LV(Cell(arr([]), ty[1:], 'promoted')))
         if o.get('zst'):
             return St(ty, None, {})
         if 'enum_bits' in o:
